@@ -740,10 +740,17 @@ def tiny_slack(w):
     if w.get("kind") != "load" or not tiny_rotation(w):
         return 0.0
     tot = 0.0
+    par = w.get("params") or {}
+    top = 0.0
+    for k, dflt in (("sx", 0.25), ("sz", 1.0), ("sxsy", 0.1)):
+        v = par.get(k, dflt)
+        top = max([top] + [float(x) for x in (v if isinstance(v, list) else [v])])
     for g in w["gates"]:
         if g[0] in ("RX", "RY", "RZ", "PHASEGATE") and isinstance(g[3], (int, float)) and g[3] != 0:
             if tiny_rotation({"kind": "load", "params": w.get("params"), "gates": [g]}):
-                tot += abs(g[3])
+                # the dropped rotation itself, plus the neighbouring pulses being mis-assigned for at most 2 tol
+                # (||H|| <= 2 pi x 2 x strongest strength)
+                tot += abs(g[3]) + 2 * 2e-10 * 4 * math.pi * top
     return tot
 
 
